@@ -25,3 +25,27 @@ Theorem C09_refuted_when_mirrored_in_one_master_only :
   exists t t' c, contour_shape (place t c) <> contour_shape (place t' c).
 Proof. exact compat_refuted. Qed.
 Print Assumptions C09_refuted_when_mirrored_in_one_master_only.
+
+(* ---- which composites the interpolatable TrueType pre-processor decomposes in ALL masters
+   (check_for_nonmatching_components, after repairs F19 / F21) ---- *)
+From Coq Require Import QArith Qcanon.
+From U2F Require Import Interp.Nonmatching Interp.NonmatchingProofs.
+
+(* a composite that is kept never makes fontTools' TTGlyphPen decompose it in one master on its own *)
+Theorem C09_kept_composite_never_overflows : forall layers,
+  needs_decomposition layers = false -> forall l, In l layers -> pen_decomposes l = false.
+Proof. exact kept_composite_never_overflows. Qed.
+Print Assumptions C09_kept_composite_never_overflows.
+
+(* and with equal component counts its 2x2 parts are the same in every master *)
+Theorem C09_kept_composite_matches : forall layers l0 rest,
+  layers = l0 :: rest -> (forall l, In l layers -> length l = length l0) ->
+  needs_decomposition layers = false -> forall l, In l layers -> l = l0.
+Proof. exact kept_composite_matches. Qed.
+Print Assumptions C09_kept_composite_matches.
+
+Example C09_overflow_before_repair_refuted :
+  let c := (Q2Qc (9#4), Q2Qc 0, Q2Qc 0, Q2Qc (9#4)) in
+  needs_decomposition_old [[c]; [c]] = false /\ pen_decomposes [c] = true /\ needs_decomposition [[c]; [c]] = true.
+Proof. exact old_code_keeps_an_overflowing_composite. Qed.
+Print Assumptions C09_overflow_before_repair_refuted.
